@@ -712,6 +712,19 @@ static int t_mpf_exact (const char *f, int budget)
           if (!ok) { failed (f); printf (" alias=%d", al); show_f ("u", u0); show_f ("got", pr); show_z ("want", bt); printf ("\n"); return 1; }
           mpz_clear (c); mpz_clear (bt);
         }
+      else if (!strcmp (f, "mpf_mul_2exp") || !strcmp (f, "mpf_div_2exp"))
+        {
+          int mul = !strcmp (f, "mpf_mul_2exp"), al = (rnd64 () % 3 == 0); mpf_ptr pr = al ? u : r;
+          unsigned long e = it % 3 == 0 ? 64 * (rnd64 () % 4) : rnd64 () % 200;
+          int n = un < pr->_mp_prec + (e % 64 == 0) ? un : pr->_mp_prec + (e % 64 == 0);       /* limbs taken from the top of u */
+          mpz_set_ui (a, 0); for (int i = un - 1; i >= un - n; i--) { mpz_mul_2exp (a, a, 64); mpz_add_ui (a, a, u0->_mp_d[i]); }
+          long sh = 64 * (12 + u0->_mp_exp - n) + (mul ? (long) e : -(long) e);
+          mpz_mul_2exp (a, a, sh); if (u0->_mp_size < 0) mpz_neg (a, a);
+          if (mul) mpf_mul_2exp (pr, u, e); else mpf_div_2exp (pr, u, e);
+          mpf_to_scaled (b, pr, 12);
+          ok = mpz_cmp (a, b) == 0 && mpf_wf (pr);
+          if (!ok) { failed (f); printf (" alias=%d e=%lu", al, e); show_f ("u", u0); show_f ("got", pr); printf ("\n"); return 1; }
+        }
       else if (!strcmp (f, "mpf_cmp_si"))
         {
           long v = (long) pat (); if (it % 3 == 0 && un == 1 && u->_mp_exp == 1) v = (long) (u->_mp_d[0] + (rnd64 () % 3) - 1) * (u->_mp_size < 0 ? -1 : 1);
@@ -889,7 +902,7 @@ int main (int argc, char **argv)
   if (!strncmp (f, "mpz_cmp", 7) || !strncmp (f, "mpz_fits", 8) || !strncmp (f, "mpz_get", 7) || !strncmp (f, "mpz_set_", 8)) return t_mpz_c11 (f, budget);
   if (!strcmp (f, "raw")) { int r1 = t_raw (f, budget); return r1 ? r1 : t_raw_leak (budget); }
   if (!strncmp (f, "mpq_", 4)) return t_mpq (f, budget);
-  if (!strcmp (f, "mpf_neg") || !strcmp (f, "mpf_abs") || !strcmp (f, "mpf_set") || !strcmp (f, "mpf_integer_p") || !strcmp (f, "mpf_get_ui") || !strcmp (f, "mpf_get_si") || !strncmp (f, "mpf_fits_", 9) || !strcmp (f, "mpf_cmp_ui") || !strcmp (f, "mpf_set_ui") || !strcmp (f, "mpf_set_si") || !strcmp (f, "mpf_trunc") || !strcmp (f, "mpf_ceil") || !strcmp (f, "mpf_floor") || !strcmp (f, "mpf_cmp_si") || !strcmp (f, "mpf_swap")) return t_mpf_exact (f, budget);
+  if (!strcmp (f, "mpf_neg") || !strcmp (f, "mpf_abs") || !strcmp (f, "mpf_set") || !strcmp (f, "mpf_integer_p") || !strcmp (f, "mpf_get_ui") || !strcmp (f, "mpf_get_si") || !strncmp (f, "mpf_fits_", 9) || !strcmp (f, "mpf_cmp_ui") || !strcmp (f, "mpf_set_ui") || !strcmp (f, "mpf_set_si") || !strcmp (f, "mpf_trunc") || !strcmp (f, "mpf_ceil") || !strcmp (f, "mpf_floor") || !strcmp (f, "mpf_cmp_si") || !strcmp (f, "mpf_swap") || !strcmp (f, "mpf_mul_2exp") || !strcmp (f, "mpf_div_2exp")) return t_mpf_exact (f, budget);
   if (!strcmp (f, "mpz_gcd_ui") || !strcmp (f, "mpz_invert") || !strcmp (f, "mpz_lcm")) return t_mpz_gcdfam (f, budget);
   if (!strcmp (f, "mpz_urandomb") || !strcmp (f, "gmp_urandomb_ui") || !strcmp (f, "gmp_urandomm_ui") || !strcmp (f, "mpn_urandomm") || !strcmp (f, "mpz_urandomm") || !strcmp (f, "randseed_lc")) return t_random (f, budget);
   if (!strcmp (f, "mpf_cmp")) return t_mpf_cmp (f, budget);
